@@ -61,7 +61,9 @@ claim("C07", "proof",
 claim("C12", "proof",
       "Proved: SetCollection/RemoveCollection/GetCollection against a finite-map model of the store's collection map (new name => fresh empty collection; existing name => same version object, "
       "only the comparator replaced; other names and handles untouched; the published map object is never mutated; the retry loop never iterates sequentially); collNames/GetCollectionNames return a sorted slice; "
-      "closing the replaced handle leaves a still-referenced version untouched (R3) -- this found D4, which was repaired.",
+      "closing the replaced handle leaves a still-referenced version untouched (R3) -- this found D4, which was repaired. "
+      "BOUNDED (stand-in, not a proof) for the whole-history clause: 60 pseudo-random histories of 60 steps (thorough: 400 of 90) on the real code -- Set, Delete, snapshots and snapshots of snapshots (up to 4 open) closed in any order, SetCollection on an existing name, RemoveCollection, Flush, eviction, churn in a second store sharing the process-wide free lists -- re-reading every open handle against its own map model after every step.",
+
       A_COMMON + " Not decided: durability of the name set beyond 'the root record is written last' (JSON, A8).")
 
 claim("C15", "other",
@@ -87,12 +89,16 @@ claim("C02", "other",
 
 claim("C10", "other",
       "Local protocol obligations proved: only unmarked nodes get marked and never the sentinel; re-marking moves only nodes carrying the old mark; reclaim frees only nodes carrying this version's mark (R5); a version still referenced after a release is left untouched (R3/R5); the last release of an unchained version frees only that version's root handle (R7); "
-      "no double free of nodes, nodeLocs, rootNodeLocs (the panics are unreachable: split/join/union return fresh, unlinked handles, proved); rootCAS chains a still-referenced predecessor (R4); allocators overwrite every field (R6).",
+      "no double free of nodes, nodeLocs, rootNodeLocs (the panics are unreachable: split/join/union return fresh, unlinked handles, proved); rootCAS chains a still-referenced predecessor (R4); allocators overwrite every field (R6). "
+      "BOUNDED (stand-in, not a proof) for the whole-history clause: 60 pseudo-random histories of 60 steps (thorough: 400 of 90) on the real code -- Set, Delete, snapshots and snapshots of snapshots (up to 4 open) closed in any order, SetCollection on an existing name, RemoveCollection, Flush, eviction, churn in a second store sharing the process-wide free lists -- re-reading every open handle against its own map model after every step.",
+
       A_COMMON + " The whole-heap ownership invariant that ties these together (no node of a live version is on a free list) is a paper argument (DESIGN 5.C10); known finding D6 (marks left by failed mutations) is where it breaks; one separation fact is assumed after the chained release (listed).")
 
 claim("C04", "other",
       "Proved: Snapshot returns a fresh read-only store over the same file and the same version objects, leaving every existing handle and the published map untouched; read-only stores refuse Flush, SetItem, Delete (unchanged state); FlushRevert on a snapshot never truncates or writes; "
-      "releasing a handle (closeCollection, rootDecRef) leaves every version that is still referenced untouched (D4 found here, repaired); lookups, walks, visits, GetTotals, EvictSomeItems and Flush leave all versions and their denotations untouched; a mutation (SetItem, Delete) of the original publishes a new version and leaves a version that a snapshot still holds with exactly its contents and one reference fewer (per-call isolation); Snapshot pins every version it copies, also when the source is itself a snapshot.",
+      "releasing a handle (closeCollection, rootDecRef) leaves every version that is still referenced untouched (D4 found here, repaired); lookups, walks, visits, GetTotals, EvictSomeItems and Flush leave all versions and their denotations untouched; a mutation (SetItem, Delete) of the original publishes a new version and leaves a version that a snapshot still holds with exactly its contents and one reference fewer (per-call isolation); Snapshot pins every version it copies, also when the source is itself a snapshot. "
+      "BOUNDED (stand-in, not a proof) for the whole-history clause: 60 pseudo-random histories of 60 steps (thorough: 400 of 90) on the real code -- Set, Delete, snapshots and snapshots of snapshots (up to 4 open) closed in any order, SetCollection on an existing name, RemoveCollection, Flush, eviction, churn in a second store sharing the process-wide free lists -- re-reading every open handle against its own map model after every step.",
+
       A_COMMON + " Not decided: isolation over histories (a snapshot keeps reading the old contents while the original mutates) follows from 'mutations publish a new version and leave older version objects' denotations untouched' per call, not explored over interleavings.")
 
 claim("C05", "other",
